@@ -28,6 +28,8 @@ type BatchOut struct {
 	Configs    []string     `json:"configs"`
 }
 
+var enumIdx int
+
 func writeJSON(path string, v any) {
 	b, err := json.MarshalIndent(v, "", " ")
 	if err != nil {
@@ -76,6 +78,10 @@ func Main() {
 }
 
 func runBatch(prop string, seed uint64, from, to int, out string, maxS float64, shrinkBudget int, evlog bool) int {
+	enum15 := prop == "C15enum"
+	if enum15 {
+		prop = "C15"
+	}
 	check := checks[prop]
 	if check == nil {
 		fmt.Fprintln(os.Stderr, "no such check:", prop)
@@ -83,6 +89,27 @@ func runBatch(prop string, seed uint64, from, to int, out string, maxS float64, 
 	}
 	names := append([]string{}, regOrder...)
 	sort.Strings(names)
+	if enum15 {
+		if registry["cenum"] == nil {
+			fmt.Fprintln(os.Stderr, "configuration cenum is not in this probe")
+			return 2
+		}
+		names = []string{"cenum"}
+		if to > EnumCount15() {
+			to = EnumCount15()
+		}
+		check = func(e *Entry, src *choice.Src, st *Stats) *Violation { return runC15(e, enumHistory15(enumIdx), st) }
+		shrinkBudget = 0
+	} else {
+		// the enumeration's configuration takes no part in the random batches
+		var n2 []string
+		for _, n := range names {
+			if n != "cenum" {
+				n2 = append(n2, n)
+			}
+		}
+		names = n2
+	}
 	if len(names) == 0 {
 		fmt.Fprintln(os.Stderr, "no configurations registered")
 		return 2
@@ -96,6 +123,7 @@ func runBatch(prop string, seed uint64, from, to int, out string, maxS float64, 
 			break
 		}
 		e := registry[names[i%len(names)]]
+		enumIdx = i
 		src := choice.New(choice.Mix(seed, uint64(i)))
 		v := check(e, src, bo.Stats)
 		bo.Done = i + 1
